@@ -904,6 +904,10 @@ func c06Phout(c *Ctx) {
 						if cl, _ := CallOfValue(bo.X); cl != nil && MatchCC(&cl.Call, Spec{"time", "Duration", "Nanoseconds"}) {
 							okDur = true
 						}
+						// d / time.Microsecond: a Duration counts nanoseconds
+						if len(setDur.Params) > 2 && Strip(bo.X) == ssa.Value(setDur.Params[2]) {
+							okDur = true
+						}
 					}
 				}
 				if cl, _ := CallOfValue(r); cl != nil && MatchCC(&cl.Call, Spec{"time", "Duration", "Microseconds"}) {
